@@ -291,3 +291,16 @@ fn c19_uci_promo_suffix() {
     assert!(s.as_bytes() == b"e2e4");
     core::mem::forget(s);
 }
+
+/// the algebraic piece letters (used for the piece prefix and the '=X' promotion suffix): all six pieces
+#[kani::proof]
+#[kani::unwind(8)]
+fn c13_piece_letters() {
+    let want: [&[u8]; 6] = [b"", b"N", b"B", b"R", b"Q", b"K"];
+    let mut k = 0;
+    while k < 6 {
+        let p = piece_of(k);
+        assert!(p.to_algebraic_str().as_bytes() == want[k], "pawn: no letter; N, B, R, Q, K for the pieces");
+        k += 1;
+    }
+}
